@@ -263,13 +263,14 @@ def BlockEquivA (x y : List ALine) : Prop := BlocksPerm (blockList x) (blockList
 
 /-- The device state as the configuration a further compare reads: the interfaces of `a0` (address,
 VRF, shutdown, inspect are never changed) with the bindings of `d`, the access lists of `d`, the
-routes of `d` with the parsed attributes of the route of `refs` that has the same text. -/
+routes of `d` with the parsed attributes of the route of `refs` that has the same text (a line that
+is not in `refs` — impossible after commands of the engine — is read without attributes). -/
 def reconf (a0 : Config) (refs : List Route) (d : Dev) : Config :=
   { intfs := a0.intfs.map fun i =>
       { i with binds := (match slotOf d i.name "in" with | some a => [⟨a, "in"⟩] | none => []) ++
                         (match slotOf d i.name "out" with | some a => [⟨a, "out"⟩] | none => []) },
     acls := d.acls.map fun a => (a.1, a.2.map (·.2)),
-    routes := d.routes.filterMap fun t => refs.find? fun r => r.text == t }
+    routes := d.routes.map fun t => (refs.find? fun r => r.text == t).getD ⟨t, "", "", 0⟩ }
 
 /-- The device state as a configuration to compare again (route-free examples: routes carry no
 parsed destination here). -/
